@@ -33,6 +33,21 @@ CHECKS = {
  "C10": dict(cat="fault_enumeration", tech="exhaustive crash-point enumeration: disk frozen before every mutating file-system operation of the interrupted call, for every scripted history, then recovery check on the real directory",
    text="For every history of length <= 4 (5 thorough) and every mutating file-system operation of its last call, the layout is frozen at that point (as SIGKILL would leave it), reopened with oci.New and checked against the recovery oracle (opens, blobs match names, index entries name existing blobs, tag map old or new, earlier effects present).",
    note="Process-kill model at system-call boundaries; vos shim's operation sequence is the os package's (strace conformance described in DESIGN.md)."),
+ "C13": dict(cat="model_checking", tech="explicit operation-sequence enumeration of a real Repository against an in-process reference registry model (lockstep + request validator), Read/Seek sequence enumeration, single-field response corruption enumeration",
+   text="Every history of up to 3 (4) mutating Repository operations x every capability profile of the registry model x option sets; after each step a battery of reads is compared with the registry's state and every request is validated against distribution-spec MUSTs; every Read/Seek sequence on a blob reader is compared with bytes.Reader; every single-field corruption of every response of the descriptor/body-returning reads must be refused when it contradicts the request.",
+   note="The registry model and its validator are trusted (allow-list of spec MUSTs); documented by-design failures (HEAD by tag without digest header, HEAD without length) are accepted errors."),
+ "C14": dict(cat="model_checking", tech="stateless model checking: delay-bounded schedule enumeration (HTTP exchanges and merge-pool sync operations as scheduling points) x index fault placements, quiescent-state oracle from the registry model",
+   text="2-3 goroutines push/delete referrers of one (or two) subjects through one Repository on a registry model without the Referrers API; every schedule within the deviation bound around three base schedulers, with up to one injected index fetch/push/delete failure; the final listing must equal the live manifests computed by the model (what a Referrers-API registry would list), no dangling index, index-delete failures reported as such, capability never flips.",
+   note="D<=2 quick / D<=3 thorough; F<=1. Faulted runs are judged only on the clauses the statement gives for them."),
+ "C15": dict(cat="exploration", tech="exhaustive enumeration of item lists x page splits x Link forms x last x page sizes x callback failures x body sizes at the limit against a scripted paging double",
+   text="A scripted registry double serves every split of every list (length <= 4/5) into pages with every Link form and checks each follow-up request against the Link it issued; documents of size limit-1..limit+1 with three padding styles are served through a byte-counting body; OCI-layout Tags over every subset of tag names and every last.",
+   note="A 'document' is the JSON value; trailing whitespace after a value that fits is not part of it."),
+ "C19": dict(cat="exploration", tech="exhaustive enumeration of PackManifest/Pack inputs (version x artifactType strings x config x layers x subject x annotations x target kind) against hand-written RFC 6838 / RFC 3339 recognisers and a push recorder",
+   text="All artifactType strings of length <= 3 (4) over a hostile alphabet plus curated boundary cases, crossed with every option combination and five target kinds (fresh and pre-populated); success is verified by re-fetching, re-hashing, re-parsing and CopyGraph; rejections are verified against a push log.",
+   note="Three known findings (lenient time.Parse) are listed in known_findings.txt and printed as KNOWN-FINDING."),
+ "C20": dict(cat="exploration", tech="exhaustive enumeration of reference strings (all strings up to length 8/9 over the 9 grammar characters, all token sequences up to 5/6, slot products, all single edits of seeds) against a hand-written scanner, plus recorded-URL shape checks",
+   text="Every string is judged by an independent scanner of the documented grammar (accept/reject/not judged); accepted references must split, round-trip and resolve identically through Repository.ParseReference on four bases; every request URL an accepted reference produces is checked for the exact /v2/<repository>/<kind>/<reference> shape.",
+   note="Strings ending in ':'/'@' and authorities only net/url can adjudicate are counted, not judged (as the property states)."),
 }
 
 checks, na = [], []
